@@ -4,6 +4,7 @@ package props
 // Two nodes "answer every query identically" iff the response bytes are equal.
 
 import (
+	"encoding/json"
 	"fmt"
 	"math/big"
 	"sort"
@@ -60,6 +61,18 @@ func battery(contracts []common.Address) []bq {
 			bq{"bank.balances:" + a.Label, "/cosmos.bank.v1beta1.Query/AllBalances", &banktypes.QueryAllBalancesRequest{Address: a.Addr.String(), Pagination: page}},
 		)
 	}
+	// EVM executions answered by query: a creation whose init code returns CHAINID (so the answer depends on the chain
+	// id the node believes in), with and without an explicit chain id, and a gas estimate of the same
+	args, err := json.Marshal(map[string]any{"from": accs[0].Hex.Hex(), "data": "0x4660005260206000f3"})
+	if err != nil {
+		panic(err)
+	}
+	prop := chain.ValCons(0).Bytes()
+	qs = append(qs,
+		bq{"evm.ethcall:chainid-opcode", "/ethermint.evm.v1.Query/EthCall", &evmtypes.EthCallRequest{Args: args, GasCap: 1000000, ProposerAddress: prop}},
+		bq{"evm.ethcall:chainid-opcode:explicit", "/ethermint.evm.v1.Query/EthCall", &evmtypes.EthCallRequest{Args: args, GasCap: 1000000, ProposerAddress: prop, ChainId: 11235}},
+		bq{"evm.estimategas:create", "/ethermint.evm.v1.Query/EstimateGas", &evmtypes.EthCallRequest{Args: args, GasCap: 1000000, ProposerAddress: prop}},
+	)
 	cs := append([]common.Address{}, contracts...)
 	for i := 0; i < 4; i++ {
 		cs = append(cs, evmasm.FrameAddr(i))
